@@ -371,6 +371,19 @@ Proof.
   intros [[[h1 s1] w1] b1] _. unfold p4. cbn [fst snd]. apply mpo_pure. intros _ _.
   destruct b1; [cbn; apply MP_refl|apply mp_split].
 Qed.
+
+Variable tail_data : St -> outcome (list N).
+Lemma mp_convert_token init s : mpo s snd (convert_token St process tail_data init s).
+Proof.
+  unfold convert_token. apply mpo_pure. intros _ _.
+  eapply mpo_bind; [apply mp_convert_token_loop|].
+  intros [[[h1 s1] w1] b1] _. unfold p4. cbn [fst snd].
+  eapply mpo_bind; [apply mp_next_item|]. intros s2 _. cbn beta.
+  apply mpo_pure. intros data _.
+  eapply (mpo_bind s2 (fun x : sbuf * nat * option (list N) => fst (fst x))).
+  - destruct data; [cbn; apply MP_refl|apply mp_append_data].
+  - intros [[s3 w3] b3] _. cbn [fst snd]. destruct b3; [cbn; apply MP_refl|apply mp_split].
+Qed.
 End ConvMP.
 
 (* ------------------------------------------------------------- entry layer *)
@@ -390,6 +403,8 @@ Proof.
   - eapply mpo_bind; [apply mp_scan_ascii_str|]. intros [v s1] _. cbn. apply MP_refl.
   - apply mp_convert_entry.
   - apply mp_convert_entry.
+  - eapply mpo_bind; [apply mp_scan_uint|]. intros [v s1] _. cbn. apply MP_refl.
+  - eapply mpo_bind; [apply mp_convert_token|]. intros [v s1] _. cbn. apply MP_refl.
 Qed.
 
 Lemma mp_scan_fields origin : forall fs s acc, mpo s snd (scan_fields origin fs s acc).
